@@ -194,7 +194,10 @@ impl SwiftField for Field58 {
                 let field = Field58D::parse(value)?;
                 Ok(Field58::D(field))
             }
-            _ => {
+            Some(other) => Err(ParseError::InvalidFormat {
+                message: format!("Option {} is not supported by this field", other),
+            }),
+            None => {
                 // No variant specified, fall back to default parse behavior
                 Self::parse(value)
             }
